@@ -22,21 +22,19 @@ const (
 	fOutInit         = "C24-out-param-init"        // OUT parameter readable with the caller's value instead of NULL
 	fHandlerRows     = "C24-handler-rows-restart"  // handler body that yields rows (INSERT, SELECT, CALL) restarts the procedure
 	fHandlerCompound = "C24-handler-compound-body" // only the first operation of a compound handler body runs
-	fHandlerNesting  = "C24-handler-nesting"       // outermost instead of innermost handler is chosen
+	fHandlerSelect   = "C24-handler-selection"     // outermost instead of innermost handler is chosen; end of cursor data only looks at the first handler on the scope stack
 	fLabelReuse      = "C24-label-reuse"           // ITERATE/LEAVE resolve to an earlier statement that used the same label
 	fUnaryMinus      = "C24-unary-minus-var"       // -v : variable under a unary operator is not substituted
 	fExitScope       = "C24-exit-handler-scope"    // EXIT handler leaves the scopes of the exited block on the stack
 	fHandlerScope    = "C24-handler-inner-scope"   // handler body runs in the scope of the raising statement
 	fNestedCall      = "C24-nested-call-args"      // nested CALL: arguments travel through a session-wide map keyed by bare name
 	fRepeatNull      = "C24-repeat-until-null"     // REPEAT ends when UNTIL evaluates to NULL
-	fHandlerSignal   = "C24-signal-in-handler"     // condition raised inside a handler body
-	fFetchHandler    = "C24-fetch-handler-lookup"  // end of cursor data only looks at the first handler on the scope stack
 	fFetchParam      = "C24-fetch-into-param"      // FETCH ... INTO <parameter> fails: variable could not be found
 )
 
 var allFindings = []string{fLeaveBlock, fDefaultExpr, fDeclNoDefault, fIterateRepeat, fIntoNoData, fIntoReexec,
-	fOutInit, fHandlerRows, fHandlerCompound, fHandlerNesting, fLabelReuse, fUnaryMinus, fExitScope, fHandlerScope,
-	fNestedCall, fHandlerSignal, fFetchHandler, fFetchParam, fRepeatNull}
+	fOutInit, fHandlerRows, fHandlerCompound, fHandlerSelect, fLabelReuse, fUnaryMinus, fExitScope, fHandlerScope,
+	fNestedCall, fFetchParam, fRepeatNull}
 
 type gen struct {
 	rt *rapid.T
@@ -190,7 +188,7 @@ func (g *gen) simple(sc scope) stmt {
 	switch {
 	case k <= 4 && len(sc.vars) > 0:
 		return sSet{g.target(sc), g.intExpr(sc, 2)}
-	case k <= 7 || len(sc.vars) == 0:
+	case k <= 7 || len(sc.vars) == 0 || sc.inHandler:
 		g.nTag++
 		return sLog{g.nTag, g.intExpr(sc, 2)}
 	default:
@@ -286,7 +284,8 @@ func (g *gen) stmts(sc scope) []stmt {
 		if !sc.excInScope && g.chance(60, "nosignal") {
 			return []stmt{g.simple(sc)}
 		}
-		if sc.inHandler && !g.want(fHandlerSignal, 100, "sigInHandler") {
+		if sc.inHandler {
+			// a condition raised while a handler body runs is outside the grammar (see notes/C24.md)
 			return []stmt{g.simple(sc)}
 		}
 		if g.chance(75, "guarded") {
@@ -327,7 +326,9 @@ func (g *gen) stmts(sc scope) []stmt {
 			}
 			s.thens = append(s.thens, g.list(in, 1, 2))
 		}
-		if g.chance(65, "else") {
+		if g.chance(65, "else") || sc.inHandler {
+			// inside a handler body a CASE always has an ELSE: "case not found" would be a condition
+			// raised while a handler runs, which is outside the grammar
 			s.hasElse = true
 			s.els = g.list(in, 1, 2)
 		}
@@ -381,12 +382,12 @@ func (g *gen) cursorBlock(sc scope) stmt {
 	// optionally an SQLEXCEPTION handler in the same block, before or after the NOT FOUND one
 	nf := handler{cond: condNotFound, exit: exitVariant, body: sSet{done, eLit{intV(1)}}}
 	b.handlers = []handler{nf}
-	if g.chance(30, "excincursorblock") && !(sc.excInScope && kf.Listed(fHandlerNesting)) {
+	if g.chance(30, "excincursorblock") && !(sc.excInScope && kf.Listed(fHandlerSelect)) {
 		hsc := in
 		hsc.inHandler = true
 		hsc.loops, hsc.blocks, hsc.repeatLbls = nil, nil, nil
 		eh := handler{cond: condExc, body: sSet{target, g.intExpr(hsc, 1)}}
-		if g.want(fFetchHandler, 50, "excfirst") {
+		if g.want(fHandlerSelect, 50, "excfirst") {
 			b.handlers = []handler{eh, nf}
 		} else {
 			b.handlers = []handler{nf, eh}
@@ -432,8 +433,9 @@ func (g *gen) into(sc scope) []stmt {
 	case k < 4:
 		return []stmt{sInto{g.target(sc), g.intExpr(sc, 2)}}
 	case k < 8:
-		// key may be missing in src (NOT FOUND) unless that region is excluded
-		if g.want(fIntoNoData, 100, "intoSrc") {
+		// key may be missing in src (NOT FOUND) unless that region is excluded; never inside a handler
+		// body (a condition raised while a handler runs is outside the grammar)
+		if !sc.inHandler && g.want(fIntoNoData, 100, "intoSrc") {
 			return []stmt{sIntoSrc{g.target(sc), g.intExpr(sc, 1)}}
 		}
 		// key 0 is always present
@@ -637,7 +639,7 @@ func (g *gen) block(sc scope, top bool) *sBlock {
 	hsc.repeatLbls = nil
 	hsc.inLoop = sc.inLoop
 	if g.chance(40, "exchandler") {
-		if !(sc.excInScope && !g.want(fHandlerNesting, 100, "nestedhandler")) {
+		if !(sc.excInScope && !g.want(fHandlerSelect, 100, "nestedhandler")) {
 			b.handlers = append(b.handlers, g.handler(hsc, condExc, top))
 			in.excInScope = true
 		}
@@ -782,14 +784,10 @@ func (g *gen) handler(hsc scope, cond int, top bool) handler {
 		bsc.depth = g.maxDepth - 1 // a shallow block
 		h.body = g.block(bsc, false)
 	case k < 7 && g.want(fHandlerRows, 100, "hrows"):
+		// (no SELECT result sets from handler bodies: which result sets of a CALL reach the client is
+		// outside the property; the engine returns one by design)
 		g.nTag++
-		if len(hsc.vars) > 0 && g.chance(20, "hsel") {
-			h.body = sSelect{g.exprs(hsc)}
-		} else {
-			h.body = sLog{g.nTag, g.intExpr(hsc, 1)}
-		}
-	case k == 9 && g.want(fHandlerSignal, 100, "hsignal"):
-		h.body = sSignal{}
+		h.body = sLog{g.nTag, g.intExpr(hsc, 1)}
 	default:
 		if len(hsc.vars) == 0 {
 			g.nTag++
